@@ -813,6 +813,28 @@ mut("c03-pointvanish-reverted", "C03", "location.go", "\tif n < 0 && i <= p && p
 mut("c03-pointvanish-closed-end", "C03", "location.go", "\tif n < 0 && i <= p && p < i-n {", "\tif n < 0 && i <= p && p <= i-n {", ["POINT-VANISH|gts.Point.Expand"], note="the first base behind the deleted stretch survives")
 mut("c03-pointvanish-silent-rearranged", "C03", "location.go", "\tif n < 0 && i <= p && p < i-n {", "\tif n < 0 && p >= i && p+n < i {", silent=True, note="the same guard with the terms moved across the comparisons")
 
+# ---------------------------------------------------------------- round-7 rules
+mut("c19-lessquant-first-part-only", "C19", "location.go", "\tif ll, ok := b.(locationSlice); ok {\n\t\tfor _, l := range ll.slice() {\n\t\t\tif !LocationLess(a, l) {\n\t\t\t\treturn false\n\t\t\t}\n\t\t}\n\t\treturn true\n\t}", "\tif ll, ok := b.(locationSlice); ok {\n\t\tif parts := ll.slice(); len(parts) > 0 {\n\t\t\treturn LocationLess(a, parts[0])\n\t\t}\n\t\treturn true\n\t}", ["LESS-QUANT|gts.LocationLess|multipart-right"])
+mut("c19-lessquant-left-forall", "C19", "location.go", "\t\t\tif LocationLess(l, b) {\n\t\t\t\treturn true\n\t\t\t}\n\t\t}\n\t\treturn false", "\t\t\tif !LocationLess(l, b) {\n\t\t\t\treturn false\n\t\t\t}\n\t\t}\n\t\treturn true", ["LESS-QUANT|gts.LocationLess|multipart-left"])
+mut("c01-prefixfunc-skips-empty-lines", "C01", "seqio/strings.go", "\treturn strings.ReplaceAll(s, \"\\n\", \"\\n\"+prefix)\n", "\tlines := strings.Split(s, \"\\n\")\n\tfor i := 1; i < len(lines); i++ {\n\t\tif len(lines[i]) > 0 {\n\t\t\tlines[i] = prefix + lines[i]\n\t\t}\n\t}\n\treturn strings.Join(lines, \"\\n\")\n", ["PREFIX-FUNC|seqio.AddPrefix"])
+mut("c01-prefixfunc-silent-replace-minus-one", "C01", "seqio/strings.go", "\treturn strings.ReplaceAll(s, \"\\n\", \"\\n\"+prefix)\n", "\treturn strings.Replace(s, \"\\n\", \"\\n\"+prefix, -1)\n", silent=True)
+mut("c05-complementwrap-distributed", "C05", "location.go", "func (joined Joined) Complement() Location {\n\treturn Complemented{joined}\n}", "func (joined Joined) Complement() Location {\n\tif CheckStrand(joined) != StrandBoth {\n\t\treturn Complemented{joined}\n\t}\n\tll := make([]Location, len(joined))\n\tfor i, loc := range joined {\n\t\tll[i] = loc.Complement()\n\t}\n\treturn Join(ll...)\n}", ["COMPLEMENT-WRAP|gts.Joined.Complement"])
+mut("c06-flattencases-complement", "C06", "location.go", "\t\tcase Ordered:\n\t\t\tlist = append(list, flattenLocations([]Location(loc))...)\n", "\t\tcase Ordered:\n\t\t\tlist = append(list, flattenLocations([]Location(loc))...)\n\t\tcase Complemented:\n\t\t\tif inner, ok := loc.Location.(Ordered); ok {\n\t\t\t\tfor _, part := range flattenLocations([]Location(inner)) {\n\t\t\t\t\tlist = append(list, part.Complement())\n\t\t\t\t}\n\t\t\t\tcontinue\n\t\t\t}\n\t\t\tlist = append(list, loc)\n", ["FLATTEN-CASES|gts.flattenLocations"])
+mut("c06-peekadvance-legacy-marker-left", "C06", "location.go", "\tif err == nil && c == '>' {\n\t\tpartial3 = true\n\t\tstate.Advance()\n\t}", "\tif err == nil && c == '>' {\n\t\tpartial3 = true\n\t}", ["PEEK-ADVANCE|gts.parseRange|peek#3"])
+mut("c06-peekadvance-silent-advance-first", "C06", "location.go", "\tif err == nil && c == '>' {\n\t\tpartial3 = true\n\t\tstate.Advance()\n\t}", "\tif err == nil && c == '>' {\n\t\tstate.Advance()\n\t\tpartial3 = true\n\t}", silent=True)
+mut("c04-noearlyexit-rotate-empty-table", "C04", "sequence.go", "\tn %= Len(seq)\n\n\tvar ff FeatureSlice\n\tfor _, f := range seq.Features() {", "\tn %= Len(seq)\n\n\tif n == 0 || len(seq.Features()) == 0 {\n\t\treturn seq\n\t}\n\n\tvar ff FeatureSlice\n\tfor _, f := range seq.Features() {", ["NO-EARLY-EXIT|gts.Rotate"])
+mut("c10-kindset-joined-shift-fast-path", "C10", "location.go", "func (joined Joined) Shift(i, n int) Location {\n\tlocs := make([]Location, len(joined))", "func (joined Joined) Shift(i, n int) Location {\n\tif last, ok := joined[len(joined)-1].(contiguousLocation); ok {\n\t\tif _, end := last.span(); end <= i {\n\t\t\treturn joined\n\t\t}\n\t}\n\tlocs := make([]Location, len(joined))", ["IDENTITY-RETURN|gts.Joined.Shift"])
+mut("c10-kindset-joined-expand-raw-slice", "C10", "location.go", "\t\tlocs[j] = loc.Expand(i, n)\n\t}\n\treturn Join(locs...)\n}", "\t\tlocs[j] = loc.Expand(i, n)\n\t}\n\tif len(locs) > 1 {\n\t\treturn Joined(locs)\n\t}\n\treturn Join(locs...)\n}", ["KIND-SET|gts.Joined.Expand"])
+mut("c12-mergeranged-whole-partial", "C12", "location.go", "if ((v.Partial.Partial3 && u.Partial.Partial5) || force) && v.End == u.Start {", "if ((v.Partial == Partial3 && u.Partial == Partial5) || force) && v.End == u.Start {", ["MERGE-RANGED|gts.(*LocationList).Push|Ranged+Ranged"])
+mut("c12-mergeranged-one-marker", "C12", "location.go", "if ((v.Partial.Partial3 && u.Partial.Partial5) || force) && v.End == u.Start {", "if ((v.Partial.Partial3 || u.Partial.Partial5) || force) && v.End == u.Start {", ["MERGE-RANGED|gts.(*LocationList).Push|Ranged+Ranged"])
+mut("c08-recordstate-extract-hoisted", "C08", "cmd/gts/extract.go", "\tfor scanner.Scan() {\n\t\tseq := scanner.Value()\n\n\t\trr := make([]gts.Region, 0)\n", "\trr := make([]gts.Region, 0)\n\tfor scanner.Scan() {\n\t\tseq := scanner.Value()\n\n", ["RECORD-STATE|main.extractFunc|rr"])
+mut("c08-recordstate-silent-reset", "C08", "cmd/gts/extract.go", "\tfor scanner.Scan() {\n\t\tseq := scanner.Value()\n\n\t\trr := make([]gts.Region, 0)\n", "\tvar rr []gts.Region\n\tfor scanner.Scan() {\n\t\tseq := scanner.Value()\n\n\t\trr = make([]gts.Region, 0)\n", silent=True)
+mut("c15-rotatehead-leftmost", "C15", "cmd/gts/rotate.go", "seq = gts.Rotate(seq, -rr[0].Head())", "seq = gts.Rotate(seq, -gts.Min(rr[0].Head(), rr[0].Tail()))", ["ROTATE-HEAD|main.rotateFunc|rotate#1"])
+mut("c16-originlineend-last-line-only", "C16", "seqio/genbank_subparsers.go", "\t\t\tif len(bytes.TrimSpace(q[extent:])) != 0 {", "\t\t\tif i+60 >= length && len(bytes.TrimSpace(q[extent:])) != 0 {", ["ORIGIN-LINE-END|seqio.slowGenBankOriginParser|rest-of-line"])
+mut("c16-originend-slow-branch", "C16", "seqio/genbank_subparsers.go", "\t\t\tgb.Origin = &Origin{p, false}\n\t\t\treturn expectNoMoreResidues(state)\n\t\t}\n\t}\n}", "\t\t\tgb.Origin = &Origin{p, false}\n\t\t\treturn nil\n\t\t}\n\t}\n}", ["ORIGIN-END"])
+mut("c13-key10-seekable-stdin", "C13", "cmd/gts/io.go", "\tif d.infile == os.Stdin {\n", "\tif d.infile == os.Stdin && !seekable(os.Stdin) {\n", ["KEY-10|main.ioDelegate.TryCache|hash"],
+    old2="func (d *ioDelegate) TryCache(", new2="func seekable(f *os.File) bool {\n\t_, err := f.Seek(0, io.SeekCurrent)\n\treturn err == nil\n}\n\nfunc (d *ioDelegate) TryCache(")
+
 if __name__ == "__main__":
     here = os.path.dirname(os.path.abspath(__file__))
     ids = [m["id"] for m in M]
